@@ -457,3 +457,34 @@ func Dup(fd int) (int, error) {
 	}
 	return -1, unix.EMFILE
 }
+
+// DupIn: the framework duplicates a descriptor the user handed in (Client.Enroll / EventLoop.Enroll); the copy is a
+// descriptor the framework created and must close exactly once
+func DupIn(fd int) (int, error) {
+	if fd < 0 || fd >= NFD || S[fd].Owner != User {
+		vAssert("C07.dup_source_is_the_users_descriptor", false)
+		return -1, unix.EBADF
+	}
+	if _, ok := fault(fd, "dup"); ok {
+		return -1, unix.EMFILE
+	}
+	for i := NFD - 1; i >= 0; i-- {
+		if S[i].Owner == Free {
+			S[i] = Sock{Owner: Framework, Stream: S[fd].Stream}
+			return i, nil
+		}
+	}
+	return -1, unix.EMFILE
+}
+
+// SockOpt: any setsockopt(2) on a descriptor (value irrelevant)
+func SockOpt(fd int, _ int) error {
+	touch(fd, "setsockopt")
+	if e, ok := fault(fd, "setsockopt"); ok {
+		if e == unix.EINTR {
+			e = unix.ENOBUFS
+		}
+		return e
+	}
+	return nil
+}
